@@ -54,6 +54,9 @@ inductive Ty
   /-- a user-defined type with its own `HeapSize::heap_size` (the value says what it reports) and the
   trait's *default* bulk helpers — e.g. a `Copy` handle into an arena: no drop glue, non-zero heap size -/
   | user (sz : Nat)
+  /-- a user-defined *unsized* type (`dyn Trait`) with its own `value_size` (the value says what it reports —
+  not necessarily `size_of_val`), heap size 0 and the trait's default bulk helpers -/
+  | userDyn
 deriving Repr, Inhabited
 
 inductive TVal
@@ -82,7 +85,7 @@ def Ty.size : Ty → Nat
   | .prim sz | .stringLike sz | .cString sz | .ref sz _ | .box sz _ | .array sz _ _ | .tuple sz _
   | .option sz _ | .result sz _ _ | .wrapping sz _ | .range2 sz _ | .range1 sz _ | .lock sz _
   | .vec sz _ | .binaryHeap sz _ | .hashSet sz _ _ | .hashMap sz _ _ _ _ | .user sz => sz
-  | .strLike | .path | .slice _ | .phantom => 0
+  | .strLike | .path | .slice _ | .phantom | .userDyn => 0
 
 def sum (l : List Nat) : Nat := l.foldr (· + ·) 0
 
@@ -90,6 +93,7 @@ def sum (l : List Nat) : Nat := l.foldr (· + ·) 0
 def valueSize : Ty → TVal → Nat
   | .strLike, .bytes n => n
   | .path, .bytes n => n
+  | .userDyn, .bytes n => n
   | .slice t, .seq vs => t.size * vs.length
   | t, _ => t.size
 
@@ -186,12 +190,14 @@ def vsSumIter : Ty → List TVal → Nat
   | .strLike, vs => vsDefault .strLike vs
   | .path, vs => vsDefault .path vs
   | .slice t, vs => vsDefault (.slice t) vs
+  | .userDyn, vs => vsDefault .userDyn vs
   | t, vs => t.size * vs.length
 
 def vsSumExact : Ty → List TVal → Nat
   | .strLike, vs => vsDefault .strLike vs
   | .path, vs => vsDefault .path vs
   | .slice t, vs => vsDefault (.slice t) vs
+  | .userDyn, vs => vsDefault .userDyn vs
   | t, vs => t.size * vs.length
 
 def vsDefault : Ty → List TVal → Nat
